@@ -245,8 +245,10 @@ def in_range(vm, start, stop):
     return not vm.exited and start <= vm.pc < stop
 
 
-def explore(fmt, kind, amount, res, rng, tier):
-    amount_value = rng.choice([1, 2, 3, 7, 1000, 0x7fffffff])
+def explore(fmt, kind, amount, res, rng, tier, amount_value=None):
+    amount_value = amount_value or rng.choice([1, 2, 3, 7, 1000, 0x7fffffff, 0x80000000,
+                               0x80000000, 0xffffffff, 0x100000000,
+                               0x80000001, 1 << 40])
     amt_in = rng.choice([1, 5, -3, 123456, -(1 << 31)])
     with kern.session() as sess:
         e, r, size = build(fmt, kind, amount, amount_value)
@@ -508,6 +510,10 @@ def run_shard(params):
     for fmt, kind, amount in params["combos"]:
         try:
             explore(fmt, kind, amount, res, rng, params["tier"])
+            if amount in ("const", "negconst", "isub"):
+                # the 32-bit immediate boundary, always
+                explore(fmt, kind, amount, res, rng, params["tier"],
+                        amount_value=0x80000000)
         except ebpfvm.VMFault as ex:
             res.inconc(f"V fault in {fmt}/{kind}/{amount}: {ex}")
     return res
